@@ -24,6 +24,39 @@ INFO = {
  "C18": dict(breaks="C18", change="UnboundedPoissonSolverPYFFTW2D.solve clears only the padding with slices [ny:, :] and [:nx, nx:] (x/y extents mixed up)", needs="2-D grid taller than wide and a solver object that has solved before (uninterrupted run) vs a fresh one (resumed run)"),
  "C19": dict(breaks="C19", change="3-D boundary damping computes the far-face coordinates from grid size * dx with the x and z extents swapped", needs="3-D grid with nx != nz and width >= 1"),
  "C20": dict(breaks="C20", change="(see notes.md)", needs="(see notes.md)"),
+ # ---- round 3 (agents were told both earlier changes; asked for something that is not another incomplete-key cache) ----
+ "C01c": dict(rnd=3, breaks="C01", first="caught", change="2-D ENO3 y-back face kernel: branches swapped and the condition negated with < instead of <= (differs from the y-front kernel exactly at a tie)",
+              needs="two vertically adjacent cells with exactly opposite non-zero y-velocity", strengthening="none needed (the upwind switch is an ite term inside the query)"),
+ "C03c": dict(rnd=3, breaks="C03", first="caught", change="3-D vector_field_solve loops over components and skips a component whose right-hand side is identically zero (solution keeps stale data)",
+              needs="a zero rhs component and a non-zero prior solution array", strengthening="none needed (prior solution symbolic, data-dependent branch forked)"),
+ "C04c": dict(rnd=3, breaks="C04", first="caught", change="3-D simulator passes buffer_scalar_field and buffer_vector_field[0] (the same memory) as the two filter buffers", needs="filter_vorticity=True and a vorticity component with non-zero sum",
+              strengthening="none needed"),
+ "C05c": dict(rnd=3, breaks="C05", first="caught", change="3-D forcing update returns early when np.allclose(forcing, 0)", needs="all forcing entries below 1e-8 in magnitude but not zero", strengthening="none needed (allclose is a symbolic branch)"),
+ "C06c": dict(rnd=3, breaks="C06", first="missed", change="2-D support kernel: a loop variant (with the y row read from the x coordinate) is returned for more than 500 markers", needs=">= 501 markers, 2-D",
+              strengthening="size-variant scan: the generators are called for every marker count 1..1100 and around 2^11..2^13; every distinct code variant of the returned kernel is decided (first and last marker symbolic)"),
+ "C07c": dict(rnd=3, breaks="C07", first="missed", change="3-D vector spreading skips markers whose window would leave the grid, with the x extent used as the bound for all three axes", needs="non-cubic grid whose x axis is the shortest and a marker far along y or z",
+              strengthening="corner markers on grids with every axis in turn the shortest"),
+ "C08c": dict(rnd=3, breaks="C08", first="caught", change="surface grid transfer skips elements whose marker forces sum to exactly zero (a pure couple is dropped)", needs="an element loaded by a pure couple", strengthening="none needed"),
+ "C09c": dict(rnd=3, breaks="C09", first="missed", change="edge grid transfer negates self.moment_arm in place and does not restore it", needs="velocity refresh after a force transfer without a position update",
+              strengthening="call history in C09 (position, velocity, transfer, velocity) for every grid class; frame condition in C08 (the transfer leaves the grid's kinematic state, the marker forces and the body state untouched)"),
+ "C10c": dict(rnd=3, breaks="C10", first="missed - an interpreter fault", change="Euler-forward kernel scales the stored velocity mismatch by dt in place (vel *= dt; pos += vel)", needs="two time_steps without an evaluation in between",
+              strengthening="FAULT IN OUR INTERPRETER: `array *= symbolic_scalar` was silently executed out of place (numpy defers in-place operators to the operand with the higher __array_priority__); SymArray now outranks Sym. All checks re-run."),
+ "C11c": dict(rnd=3, breaks="C11", first="missed", change="2-D solver treats every eigenvalue below sqrt(eps)*max as the null space", needs="float32 and a grid side of 60-64 cells", strengthening="sizes up to 64 with the rhs supported on a few cells; float32 tolerance tightened from 2e-2 to 2e-4 (measured worst case 8e-7)"),
+ "C12c": dict(rnd=3, breaks="C12", first="missed", change="3-D curl wrapper sweeps z slabs of 32 planes with an off-by-one slab end: planes 32, 64, ... are never written", needs="at least 34 planes along z",
+              strengthening="long thin grids (one axis 70 / 130 cells, the others minimal) in C12 and for every generator in C13"),
+ "C13c": dict(rnd=3, breaks="C13", first="caught", change="3-D vector add-fixed-value wrapper skips components whose fixed value is 0", needs="out-of-place call with a zero entry in fixed_vals", strengthening="none needed"),
+ "C14c": dict(rnd=3, breaks="C14", first="inconclusive (truth value of a symbolic real)", change="3-D free-stream update returns early when np.amax(free_stream) is 0 (largest signed component)", needs="a free stream with no positive component, e.g. the mirror image (-U,0,0)",
+              strengthening="`if x:` / `not x` on a symbolic real is the branch x != 0"),
+ "C15c": dict(rnd=3, breaks="C15", first="missed", change="3-D simulator with the fast-diagonalisation solver makes the stream function a view of the velocity field; _curl(curl=velocity, field=stream function) is then in place", needs="poisson_solver_type='fast_diagonalisation'",
+              strengthening="wrapper-level alias queries: within one call of a public kernel, memory passed under two argument names must not be written by one compiled kernel and read by a later one; replay = the real step with every such call also run on de-aliased copies"),
+ "C16c": dict(rnd=3, breaks="C16", first="inconclusive", change="early-out for a quiescent flow divides by the raw viscosity", needs="zero velocity and zero viscosity",
+              strengthening="finiteness claim (no vanishing denominator on the path); an arithmetic error raised inside SophT during replay counts as reproduction of a claim about the returned value; undecided path feasibility is explored instead of aborting; wall budget per tier"),
+ "C17c": dict(rnd=3, breaks="C17", first="caught", change="IO.lagrangian_fields became a class attribute shared by all IO objects", needs="a second IO object registering the same field name before the first one saves", strengthening="none needed (later-object instances added in round 2)"),
+ "C18c": dict(rnd=3, breaks="C18", first="inconclusive (CrossHair cannot follow np.isclose)", change="restart helper compares flow and body time with np.isclose", needs="times that differ by less than 1e-5 relative",
+              strengthening="restart helper also executed by our own engine with real-valued times as solver variables; numpy functions applied to symbolic scalars dispatch to the symbolic table (np.isclose added)"),
+ "C19c": dict(rnd=3, breaks="C19", first="caught", change="3-D characteristic function: the blend term uses |phi| >= blend width, so H(+blend width) = 0", needs="level set exactly equal to +blend width, 3-D", strengthening="none needed (boundary cases are enumerated)"),
+ "C20c": dict(rnd=3, breaks="C20", first="missed", change="stretching time-step kernels run the 3-D scalar elementwise kernel on arg.reshape(-1, ny, nx): for non-mergeable layouts the reshape is a copy and the update is lost", needs="vorticity field that is not C-contiguous (padded window, component-last storage)",
+              strengthening="layouts of the updated field in C20; views 'interior' and 'rolled' for every generator in C13"),
  # ---- round 2 (agents were told the round-1 change and asked for one of a different nature and place) ----
  "C01b": dict(breaks="C01", first="missed", change="UnboundedPoissonSolverPYFFTW3D caches the Fourier Green's function at class level, keyed by (grid sizes, dtype) - x_range is missing from the key",
               needs="a second 3-D simulator / solver in the same process with the same grid and precision but another x_range", strengthening="later-object instances (`_earlier`): a simulator with another x_range is built and stepped first in the same process"),
@@ -66,7 +99,7 @@ for sid, info in INFO.items():
     m = json.load(open(p))
     m.update({"property_broken": info["breaks"], "change": info["change"], "needs_to_manifest": info["needs"], "author": "independent sub-agent given only the property text and a scratch worktree"})
     if "first" in info:
-        m["round"] = 2
+        m["round"] = info.get("rnd", 2)
         m["first_run_of_target_check"] = info["first"]
         m["strengthening"] = info["strengthening"]
     cr = m.get("checks_run", {})
